@@ -551,6 +551,62 @@ Section Proofs.
       intros p. cbn. destruct (sig_poly (aod_sig od)) as [q|]; [|discriminate]. intros [= <-]. cbn.
       now apply (Hp q eq_refl).
   Qed.
+
+  (* ---- one Extension object over time (model Section Session, seeded round 4) ----
+     `sim e f`: two well-formed extensions that write the same document.  Adding a definition keeps them
+     similar; an extension and its loaded copy are similar.  Hence whatever was serialised or loaded in
+     between, the document written at a point is the one-shot document of the additions so far. *)
+  Definition sim (e f : ext) : Prop := wf e /\ wf f /\ ext_ser e = ext_ser f.
+  Lemma map_dset_snd {A B} (g : A -> B) (d : list (name * A)) k v :
+    map (fun kv => (fst kv, g (snd kv))) (dset N.eqb d k v)
+    = dset N.eqb (map (fun kv => (fst kv, g (snd kv))) d) k (g v).
+  Proof.
+    induction d as [|[k' w] r IH]; cbn; [reflexivity|].
+    destruct (N.eqb k k'); cbn; [reflexivity|now rewrite IH].
+  Qed.
+  Lemma ext_ser_step (e f : ext) c : ext_ser e = ext_ser f -> ext_ser (step e c) = ext_ser (step f c).
+  Proof.
+    unfold ext_ser. intros H. injection H as Hv Hn Hr Ht Hvs Ho.
+    destruct c as [td|od|v]; cbn [step fst add_type_def add_op_def add_extension_value
+                                 e_name e_version e_reqs e_types e_values e_ops];
+      rewrite ?map_dset_snd; rewrite Ht, Hvs, Ho, Hr, Hv, ?Hn; reflexivity.
+  Qed.
+  Lemma sim_step (e f : ext) c : sim e f -> cmd_ok c -> sim (step e c) (step f c).
+  Proof.
+    intros (He & Hf & H) Hc. split; [now apply wf_step|]. split; [now apply wf_step|now apply ext_ser_step].
+  Qed.
+  Lemma sim_back (e : ext) : wf e ->
+    deserialize deser_t deser_v (ext_ser e) = Ok (ext_back (ext_ser e)) /\ sim (ext_back (ext_ser e)) e.
+  Proof.
+    intros Hwf.
+    assert (Hd : deserialize deser_t deser_v (ext_ser e) = Ok (ext_back (ext_ser e)))
+      by now apply deserialize_ok, ext_ser_doc_ok.
+    split; [exact Hd|]. split; [exact (deserialize_wf _ _ Hd)|]. split; [exact Hwf|now apply ext_ser_back].
+  Qed.
+  Lemma session_sim (e0 : ext) p : forall (e : ext) acc,
+    sim e (build e0 acc) -> Forall cmd_ok (adds p) ->
+    session ser_t deser_t ser_v deser_v e p
+    = map (fun cs => to_serial ser_t ser_v (build e0 cs)) (points acc p).
+  Proof.
+    induction p as [|s r IH]; intros e acc Hs Hok; [reflexivity|].
+    destruct s as [c| |]; cbn [session points map].
+    - cbn [adds flat_map app] in Hok. inversion Hok as [|? ? Hc Hr]; subst.
+      apply IH; [|exact Hr]. unfold build. rewrite fold_left_app. cbn [fold_left].
+      now apply sim_step.
+    - destruct Hs as (He & Hf & H). rewrite (IH e acc); [|exact (conj He (conj Hf H))|exact Hok].
+      now rewrite !to_serial_ok, H by assumption.
+    - destruct Hs as (He & Hf & H). rewrite !to_serial_ok by assumption. cbn [bind].
+      destruct (sim_back e He) as [Hd (Hb1 & _ & Hb3)]. rewrite Hd.
+      rewrite (IH (ext_back (ext_ser e)) acc); [now rewrite H| |exact Hok].
+      split; [exact Hb1|]. split; [exact Hf|now rewrite Hb3].
+  Qed.
+  Theorem session_documents n v r (p : list (sstep T V M)) : Forall cmd_ok (adds p) ->
+    session_transparent (fun cs => to_serial ser_t ser_v (build (new_ext n v r) cs)) p
+                        (session ser_t deser_t ser_v deser_v (new_ext n v r) p).
+  Proof.
+    intros H. unfold session_transparent. apply session_sim; [|exact H].
+    split; [apply wf_new|]. split; [apply wf_new|reflexivity].
+  Qed.
 End Proofs.
 
 (* ------------------------------------------------------------------ shared definition objects *)
@@ -908,4 +964,34 @@ Proof.
   split.
   - repeat constructor; cbn; unfold sig_valid; cbn; congruence.
   - eexists. repeat split; vm_compute; reflexivity.
+Qed.
+
+(* one Extension object over time (seeded round 4): the first three additions of ex_cmds, a document, the value,
+   a document, the session goes on with the LOADED object, the last addition, a document.  The three documents
+   hold 0 / 1 / 1 values and the third shows the re-added operation; and the breakage: a document kept from one
+   `to_json` to the next and dropped by add_type_def / add_op_def only (`session_stale`) gives a second document
+   without the value -- it is not the document of the additions so far. *)
+Definition ex_session : list (sstep N N N) :=
+  map (@SAdd N N N) (firstn 3 ex_cmds) ++ [@SSer N N N] ++ map (@SAdd N N N) (firstn 1 (skipn 3 ex_cmds)) ++
+  [@SLoad N N N] ++ map (@SAdd N N N) (skipn 4 ex_cmds) ++ [@SSer N N N].
+Definition res_values (r : res (sextension N N N)) : option (list name) :=
+  match r with Ok s => Some (map fst (se_values s)) | Err _ => None end.
+Example session_example :
+  Forall (@cmd_ok N N N) (adds ex_session) /\
+  let outs := session id id id id (new_ext 5%N ex_version [8%N; 6%N; 8%N]) ex_session in
+  map res_values outs = [Some []; Some [30%N]; Some [30%N]] /\
+  nth_error outs 2 = Some (to_serial id id (build (new_ext 5%N ex_version [8%N; 6%N; 8%N]) ex_cmds)).
+Proof.
+  split.
+  - repeat constructor; cbn; unfold sig_valid; cbn; congruence.
+  - split; vm_compute; reflexivity.
+Qed.
+Example stale_document_refuted :
+  let e0 := new_ext 5%N ex_version [8%N; 6%N; 8%N] in
+  let outs := session_stale id id e0 None ex_session in
+  ~ session_transparent (fun cs => to_serial id id (build e0 cs)) ex_session outs /\
+  map res_values outs = [Some []; Some []; Some [30%N]].
+Proof.
+  split; [|vm_compute; reflexivity].
+  unfold session_transparent. intros H. apply (f_equal (map res_values)) in H. vm_compute in H. discriminate H.
 Qed.
